@@ -1195,6 +1195,7 @@ package jsonpath
 //@   parsetime
 //@   requires nodeOK(this) && 0 <= chainLen(this) && chainWalk(this)
 //@   decreases chainLen(this)
+//@   ensures nilnoop: next == nil ==> (forall b {F_syntaxBasicNode_next[b]} :: F_syntaxBasicNode_next[b] == old(F_syntaxBasicNode_next[b]))
 //@ interface syntaxSubscript.isValueGroup
 //@   requires this != nil
 //@   pure
@@ -1213,6 +1214,13 @@ package jsonpath
 //@   requires i != nil
 //@   ensures flag: i.accessorMode == mode
 //@   ensures only: forall b {F_syntaxBasicNode_accessorMode[b]} :: b != i ==> F_syntaxBasicNode_accessorMode[b] == old(F_syntaxBasicNode_accessorMode[b])
+// C18 (`$` left out): appending nil to a chain changes no link
+//@ func (*syntaxBasicNode).setNext
+//@   props C02 C18
+//@   parsetime
+//@   requires i != nil && (i.next != nil ==> nodeOK(i.next) && 0 <= chainLen(i.next) && chainWalk(i.next))
+//@   decreases i.next == nil ? 0 : chainLen(i.next) + 1
+//@   ensures nilnoop: next == nil ==> (forall b {F_syntaxBasicNode_next[b]} :: F_syntaxBasicNode_next[b] == old(F_syntaxBasicNode_next[b]))
 //@ func (*syntaxBasicNode).setText
 //@   props C02 C15
 //@   parsetime
@@ -1235,10 +1243,15 @@ package jsonpath
 //@ spec chainWalk(v any) bool = basicOf(v).next != nil ==> nodeOK(basicOf(v).next) && 0 <= chainLen(basicOf(v).next) && chainLen(basicOf(v).next) < chainLen(v) && chainWalkNext(basicOf(v).next)
 //@ smt (declare-fun chainWalkNext (Val) Bool)
 
+// C18: the number a spelling denotes is a function of the digits text alone (atoiVal: strconv.Atoi, not modelled further;
+// numToF: strconv.ParseFloat(., 64), the same function json.Number.Float64 applies to a decoded number)
+//@ smt (declare-fun atoiVal (Str) Int)
 //@ extern strconv.Atoi
 //@   pure
+//@   ensures ret1 == nil ==> ret0 == atoiVal(s)
 //@ extern strconv.ParseFloat
 //@   pure
+//@   ensures ret1 == nil && bitSize == 64 ==> ret0 == numToF(s)
 //@ extern regexp.Compile
 //@   modifies heap:alloc
 //@   ensures ret1 == nil ==> ret0 != nil
@@ -1263,11 +1276,13 @@ package jsonpath
 //@ func (*jsonPathParser)._createBasicCompareQuery
 //@   inline
 
+//@ spec indexBuilt(p *jsonPathParser, text string, omitted bool) bool = len(p.params) == old(len(p.params)) + 1 && isType(topParam(p), *syntaxIndexSubscript) && asType(topParam(p), *syntaxIndexSubscript) != nil && asType(topParam(p), *syntaxIndexSubscript).number == atoiVal(text) && asType(topParam(p), *syntaxIndexSubscript).isOmitted == omitted
 //@ func (*jsonPathParser)._pushIndexSubscript
-//@   props C02 C19 C17
+//@   props C02 C19 C17 C18
 //@   parsetime
 //@   requires p != nil
 //@   panics ErrorInvalidArgument
+//@   ensures built: indexBuilt(p, text, isOmitted)
 
 //@ func (*jsonPathParser)._unescapeJSONString
 //@   props C02 C19 C16
@@ -1277,11 +1292,16 @@ package jsonpath
 
 // C14: when the root identifier of a parameter path is dropped, its value-group flag moves to the node that follows it
 //@ func (*jsonPathParser).deleteRootIdentifier
-//@   props C02 C19 C14
+//@   props C02 C19 C14 C18
 //@   parsetime
 //@   trusted
 //@   requires p != nil
 //@   before setValueGroup#1 assert moved: basicOf(targetNode).valueGroup && recv == basicOf(targetNode).next
+// C18 (`$` left out): a root identifier followed by a step is dropped - what comes back is the step that followed it,
+// with the links of the chain unchanged; every other node comes back itself
+//@   proves dropped: (isType(targetNode, *syntaxRootIdentifier) || isType(targetNode, *syntaxCurrentRootIdentifier)) && old(basicOf(targetNode).next) != nil ==> ret == old(basicOf(targetNode).next)
+//@   proves kept: !((isType(targetNode, *syntaxRootIdentifier) || isType(targetNode, *syntaxCurrentRootIdentifier)) && old(basicOf(targetNode).next) != nil) ==> ret == targetNode
+//@   proves links: (isType(targetNode, *syntaxRootIdentifier) || isType(targetNode, *syntaxCurrentRootIdentifier)) ==> (forall b {F_syntaxBasicNode_next[b]} :: F_syntaxBasicNode_next[b] == old(F_syntaxBasicNode_next[b]))
 //@   ensures chain: nodeWF(ret)
 //@   requires nodeOK(targetNode) && 0 <= chainLen(targetNode) && chainWalk(targetNode)
 //@   decreases chainLen(targetNode)
@@ -1459,10 +1479,11 @@ package jsonpath
 //@   ensures aggregate: !has(p.filterFunctions, funcName) ==> has(p.aggregateFunctions, funcName) && isType(topParam(p), *syntaxAggregateFunction) && asType(topParam(p), *syntaxAggregateFunction) != nil && asType(topParam(p), *syntaxAggregateFunction).function == p.aggregateFunctions[funcName]
 
 //@ func (*jsonPathParser).pushIndexSubscript
-//@   props C02 C19
+//@   props C02 C19 C18
 //@   parsetime
 //@   requires p != nil
 //@   panics ErrorInvalidArgument
+//@   ensures built: indexBuilt(p, text, false)
 
 //@ func (*jsonPathParser).pushLogicalAnd
 //@   props C02 C19 C09
@@ -1483,10 +1504,11 @@ package jsonpath
 //@   ensures built: len(p.params) == old(len(p.params)) + 1 && isType(topParam(p), *syntaxLogicalOr) && asType(topParam(p), *syntaxLogicalOr) != nil && asType(topParam(p), *syntaxLogicalOr).leftQuery == leftQuery && asType(topParam(p), *syntaxLogicalOr).rightQuery == rightQuery
 
 //@ func (*jsonPathParser).pushOmittedIndexSubscript
-//@   props C02 C19
+//@   props C02 C19 C18
 //@   parsetime
 //@   requires p != nil
 //@   panics ErrorInvalidArgument
+//@   ensures built: indexBuilt(p, text, true)
 
 //@ func (*jsonPathParser).pushRecursiveChildIdentifier
 //@   props C02 C19
@@ -1574,16 +1596,18 @@ package jsonpath
 //@   ensures near: asType(ret, ErrorInvalidSyntax).near == runeSuffix(buffer, pos)
 
 //@ func (*jsonPathParser).toFloat
-//@   props C02 C19 C17
-//@   parsetime
+//@   props C02 C19 C17 C18
+//@   modifies heap:alloc
 //@   requires p != nil
 //@   panics ErrorInvalidArgument
+//@   ensures value: ret == numToF(text)
 
 //@ func (*jsonPathParser).toInt
-//@   props C02 C19 C17
-//@   parsetime
+//@   props C02 C19 C17 C18
+//@   modifies heap:alloc
 //@   requires p != nil
 //@   panics ErrorInvalidArgument
+//@   ensures value: ret == atoiVal(text)
 
 // C16 (dot form): the name is the text with each escaping backslash removed.  Proved only relative to the assumed
 // regexp contract above - it pins the way unescape uses the pattern, so that a rewrite has to re-establish it.
@@ -1692,7 +1716,7 @@ package jsonpath
 //@   requires this != nil
 //@   pure
 //@ cases (*pegJSONPathParser).Execute
-//@   props C02 C09 C10 C11 C14 C16 C17 C19
+//@   props C02 C09 C10 C11 C14 C16 C17 C18 C19
 //@   parsetime
 //@   requires p != nil && p.jsonPathParser.unescapeRegex != nil && p.jsonPathParser.unescapeRegex == unescapeRegex
 //@   loop 2 invariant aggchain: checkNode != nil ==> PN(checkNode)
@@ -1714,6 +1738,13 @@ package jsonpath
 //@   case ruleAction39 assume wf(p.jsonPathParser.paramsList) && (forall v Val {PN(v)} :: PN(v) ==> PNdef(v))
 // what each action leaves on the stack, in terms of what it found there (old = the state when the action fired)
 //@   case ruleAction5 ensures named: len(p.jsonPathParser.params) == old(len(p.jsonPathParser.params)) && (has(p.jsonPathParser.filterFunctions, asType(old(stk(p, 0)), string)) ==> isType(stk(p, 0), *syntaxFilterFunction) && asType(stk(p, 0), *syntaxFilterFunction).function == p.jsonPathParser.filterFunctions[asType(old(stk(p, 0)), string)])
+// C18: what a number or a string literal denotes is a function of its captured text alone (an index: atoiVal of the digits
+// with their sign; a number literal: numToF; a string literal of either quote style: dotUnesc)
+//@   case ruleAction17 ensures index: isType(stk(p, 0), *syntaxIndexSubscript) && asType(stk(p, 0), *syntaxIndexSubscript).number == atoiVal(text) && !asType(stk(p, 0), *syntaxIndexSubscript).isOmitted
+//@   case ruleAction21 ensures index: isType(stk(p, 0), *syntaxIndexSubscript) && (len(text) > 0 ==> asType(stk(p, 0), *syntaxIndexSubscript).number == atoiVal(text) && !asType(stk(p, 0), *syntaxIndexSubscript).isOmitted) && (len(text) == 0 ==> asType(stk(p, 0), *syntaxIndexSubscript).isOmitted)
+//@   case ruleAction40 ensures number: isType(stk(p, 0), float64) && asType(stk(p, 0), float64) == numToF(text)
+//@   case ruleAction43 ensures str: isType(stk(p, 0), string) && asType(stk(p, 0), string) == dotUnesc(text)
+//@   case ruleAction44 ensures str: isType(stk(p, 0), string) && asType(stk(p, 0), string) == dotUnesc(text)
 //@   case ruleAction10 ensures key: isType(stk(p, 0), *syntaxChildSingleIdentifier) && asType(stk(p, 0), *syntaxChildSingleIdentifier).identifier == dotUnesc(text)
 //@   case ruleAction13 assume sqValid(text)
 //@   case ruleAction13 ensures key: isType(stk(p, 0), *syntaxChildSingleIdentifier) && asType(stk(p, 0), *syntaxChildSingleIdentifier).identifier == sqJson(text)
